@@ -160,7 +160,11 @@ Definition status_on_done (c : call) : call :=
   | _ => c
   end.
 
-(* Future.set_result / Future.set_exception: InvalidStateError unless the cell is pending.
+(* Future.set_result / Future.set_exception: InvalidStateError unless the cell is pending; since 4fd58ee
+   _call_func swallows that error (it can only arise when a caller thread cancels the future between the
+   `future.cancelled()` test and the set -- a preemptive interleaving inside one segment, which this model does
+   not have); the state is left unchanged and the attempt is recorded in `c_invalid`, which PortalProofs shows
+   is never set: in the atomic-segment model the primitives are only ever applied to a pending cell.
    On success the done-callbacks run: task_done (above); _call_func's `callback` does nothing because
    the future is not cancelled. *)
 Definition fut_set (c : call) (x : cell) : call :=
